@@ -164,7 +164,7 @@ class Interp(object):
                 return {'True': True, 'False': False, 'None': None}[e.id]
             if e.id == 'Ellipsis':
                 return Kind('ELLIPSIS')
-            if e.id in self.ext or e.id in ('len', 'range', 'all', 'any', 'enumerate', 'isinstance', 'zip'):
+            if e.id in self.ext or e.id in ('len', 'range', 'all', 'any', 'enumerate', 'isinstance', 'zip', 'sum', 'min', 'max', 'sorted', 'abs', 'reversed'):
                 return ('builtin', e.id)
             raise Undecided('unknown name %s' % e.id)
         if isinstance(e, ast.Attribute):
@@ -338,6 +338,22 @@ class Interp(object):
                 return all(self.truth(x) for x in self.iterate(args[0]))
             if n == 'any':
                 return any(self.truth(x) for x in self.iterate(args[0]))
+            if n in ('sum', 'min', 'max', 'sorted', 'abs', 'reversed'):
+                vals = args[0] if n == 'abs' else list(self.iterate(args[0])) if len(args) == 1 else list(args)
+                flat = [vals] if n == 'abs' else vals
+                if not all(isinstance(x, (int, bool)) for x in flat) or kwargs:
+                    raise Undecided('%s over abstract values' % n)
+                if n == 'sum':
+                    return sum(int(x) for x in vals)
+                if n == 'abs':
+                    return abs(vals)
+                if n == 'sorted':
+                    return sorted(vals)
+                if n == 'reversed':
+                    return list(reversed(vals))
+                if not vals:
+                    raise Undecided('%s of an empty sequence' % n)
+                return min(vals) if n == 'min' else max(vals)
             if n == 'enumerate':
                 return list(enumerate(self.iterate(args[0])))
             if n == 'zip':
